@@ -54,6 +54,13 @@ CLAIMED["C28"] = dict(
     ref="DESIGN.md 4/C28",
 )
 
+CLAIMED["C06"] = dict(
+    technique="sign (non-negativity) dataflow over length arguments against the extracted reader/writer asymmetry; direction-dependence lint of control flow; schema agreement between the description program's folded targets, fixeddict entries, default-value table and nesting table (33 context types)",
+    text="Round-trip equality of bytes is behaviour and not decided. Decided for all inputs: no length argument on which reader and writer disagree (negative) can arise; control flow of the one bidirectional description program does not depend on direction; everything the program reads/writes is declared, defaulted with the primitive's type, and nothing declared is left unused.",
+    note="Trusted: unsigned serdes reads are non-negative; constant folder for targets. Bit-level inverse-ness of primitives is C20/C21.",
+    ref="DESIGN.md 4/C06",
+)
+
 NOT_APPLICABLE = {
     "C12": "arithmetic over unbounded integers (quantisation error bounds, monotonicity of a rational formula): no structural clause; needs algebra/solver or execution",
     "C13": "partition/telescoping identities of floor arithmetic on runtime sizes; the functions are spec-pinned arithmetic with nothing to decide from code shape",
